@@ -35,9 +35,22 @@ class RvAsmData(c04.RvAsm):
         return ["ok", "data", "pseudo"]
 
 
-def run_program(text, steps=200):
+DIRTY = ("li x5, 0x4000\nli x6, 0x55\nsw x6, 0(x5)\nsw x6, 4(x5)\nsw x6, 64(x5)\nsb x6, 9(x5)\nsw x6, 128(x5)\nsw x6, 12(x5)\nlw x7, 256(x5)\n"
+         ".data\nold: .word 6, 6, 6, 6, 6, 6, 6, 6")
+
+
+def run_program(text, steps=200, used=None):
+    """used = a data-cache configuration: the program is loaded into a simulation that has already RUN another program (which
+    left modified blocks in that cache) — the variables must have their declared values all the same"""
     from architecture_simulator.simulation.riscv_simulation import RiscvSimulation
-    sim = RiscvSimulation()
+    if used is not None:
+        from common import cache_options
+        sim = RiscvSimulation(data_cache=cache_options(used))
+        sim.load_program(DIRTY)
+        sim.run()
+        sim.state.program_counter = 0
+    else:
+        sim = RiscvSimulation()
     sim.load_program(text)
     n = 0
     while not sim.is_done() and n < steps:
@@ -139,6 +152,10 @@ class NameIndex(Slice):
         table, mem = RA.ref_layout(ap)
         findings, cl = [], set()
         order = rng.choice(["data-first", "text-first"])
+        used = None
+        if rng.random() < 0.3:
+            used = [rng.choice([0, 0, 1]), rng.choice([0, 1, 2]), rng.choice([1, 1, 2]), False, rng.random() < 0.25, 0]    # tiny, mostly write-back
+            cl.add("used-simulation")
         for name, kind, payload in ap.data:
             nel = len(payload) if kind in ("byte", "half", "word") else (len(payload) + 1 if kind == "string" else payload)
             base, size = table[name]
@@ -161,9 +178,9 @@ class NameIndex(Slice):
                 data_lines = data_txt[di:] if order == "text-first" else data_txt[:data_txt.index(".text")]
                 text = "\n".join(data_lines + [".text"] + body) if order == "data-first" else "\n".join([".text"] + body + data_lines)
                 try:
-                    sim = run_program(text, 60)
+                    sim = run_program(text, 60, used=used)
                 except Exception as e:
-                    findings.append(("violation", f"{ref}: program rejected or faulted: {type(e).__name__} {e}"))
+                    findings.append(("violation", f"{ref}: program rejected or faulted: {type(e).__name__} {e}" + (f" (on a simulation used before, data cache {used})" if used else "")))
                     continue
                 regs = [int(r) for r in sim.state.register_file.registers]
                 want_addr = base + size * (idx or 0)
@@ -178,6 +195,18 @@ class NameIndex(Slice):
                     findings.append(("violation", f"load of {ref} gives {regs[6]:#x}, declared value {want_val:#x}"))
                 elif regs[10] != 77 or regs[9] != want_addr:
                     findings.append(("violation", f"store to {ref} then load gives {regs[10]}, scratch register {regs[9]:#x}"))
+                else:
+                    # ... and every OTHER declared byte still has its declared value (read through the memory system)
+                    stored = set(range(want_addr, want_addr + size))
+                    probe = sorted(mem) if len(mem) <= 96 else sorted(rng.sample(sorted(mem), 96))
+                    for a in probe:
+                        if a in stored:
+                            continue
+                        got = int(sim.state.memory.read_byte(a, False))
+                        if got != mem[a]:
+                            findings.append(("violation", f"after running the accesses to {ref}, byte {a:#x} reads {got:#x}, declared {mem[a]:#x}"
+                                             + (f" (simulation used before, data cache {used})" if used else "")))
+                            break
                 cl.add("kind:" + kind)
                 if idx:
                     cl.add("indexed")
@@ -187,7 +216,7 @@ class NameIndex(Slice):
         return "indexed" in classes
 
     def required_classes(self, tier):
-        return ["kind:byte", "kind:half", "kind:word", "kind:string", "kind:zero", "indexed", "long"]
+        return ["kind:byte", "kind:half", "kind:word", "kind:string", "kind:zero", "indexed", "long", "used-simulation"]
 
 
 HELP_FILE = "/repo/webgui/src/components/riscv/RiscvHelp.vue"
